@@ -78,6 +78,10 @@ CHECKS = {
             "Every vertex sequence of length 1..5 (thorough 6) over the 3x3 lattice with repetition as LineString and every ordered pair (incl. equal points) as Line, crossed with ratios {-1,0,1/8..1,1+ulp,2} and every cumulative vertex ratio: the ratio and distance forms from start and end, the deprecated line_interpolate_point, and line_locate_point (simple lines) must agree with the arc-length walk; densify for LineString/Line/Polygon/Rect/Triangle with maxima from far below the shortest segment to above the total length keeps the vertices in order, inserts only points of the original segments, conserves length and respects the maximum.",
             "Reference computed in f64 (sqrt), tolerance 1e-12 relative. The deprecated form's documented None on a zero-length line is not compared.",
             "DESIGN.md §4 C15"),
+    "C16": ("E1-grid", "exhaustive enumeration of all ordered pairs of a lon/lat lattice (plus near-coincident and cross-antimeridian partners) against metric identities",
+            "All ordered pairs of a 15-degree (thorough 5-degree) lon/lat lattice, 8 neighbours at 1e-6 degree of every lattice point and cross-antimeridian partners, in Haversine, Geodesic, Rhumb and custom sphere / ellipsoid measures: round trip destination(a, bearing(a,b), distance(a,b)) within 1 mm of b, symmetry within 1 um, non-negativity, zero for identical points, point_at_ratio_between divides the distance, line-string length equals the segment sum, bearings in [0,360), outputs within lon/lat range; destination for bearings incl. negative and >360 and distances incl. 0 and negative: periodicity, sign symmetry and travelled distance.",
+            "Weakest claim of the set: identities on a lattice say nothing between lattice points; pairs within ~2% of antipodal are excluded from the round-trip clause as the property allows. Measured worst deviations (<= 3e-8 m) are in the evidence. GeodesicMeasure::new's second parameter is named inverse_flattening but is used as the flattening f; the check passes f.",
+            "DESIGN.md §4 C16"),
 }
 
 NOT_YET = "check not built yet in this round (planned: bounded exhaustive exploration, see DESIGN.md §4)"
